@@ -69,7 +69,8 @@ func TestC36(t *testing.T) {
 	r.Rule = "TRC timelines (base only; base expired; update in grace / grace over / predecessor expired in grace / predecessor " +
 		"ending before the grace end / grace end beyond the update's own validity / update expired / update not yet valid) x key " +
 		"rings (one key; two keys, the second with no / a kept-root / an old-root chain) x every set of <=2 (quick) or <=3 " +
-		"(thorough) chains for the first key drawn from {kept, old, new, rogue root} x NotAfter {+30m, +3d(, +30d)} plus an expired " +
+		"(thorough) chains for the first key drawn from {kept, old, new, rogue root} x NotAfter {+30m, +3d(, +30d)}, per root an old " +
+		"long-lived chain [-100d,+2h] and a renewed one [-1h,+1d] (NotBefore varies independently of NotAfter), plus an expired " +
 		"and a not-yet-valid one; one case = one Generate call (plus Sign/Verify/expiry probes of every signer it returns, the " +
 		"verification key id of every signature, and a second verifier that starts one TRC behind and must catch up) on a " +
 		"fresh DB; non-trivial = all (pairwise different configurations)"
@@ -152,6 +153,13 @@ func TestC36(t *testing.T) {
 		for _, na := range nas {
 			alphabet = append(alphabet, mkChain(fmt.Sprintf("%s%+v", ca, na), ca, "k1", elliptic.P256(), -d, na))
 		}
+	}
+	// NotBefore varies independently of NotAfter: an old long-lived certificate that is about to expire and a freshly
+	// renewed short-lived one (the validity LENGTH is not what makes a chain the latest-expiring one).
+	for _, ca := range mc.Pick([]string{"keep", "old"}, []string{"keep", "old", "new"}) {
+		alphabet = append(alphabet,
+			mkChain(ca+"-old-long-lived-ends+2h", ca, "k1", elliptic.P256(), -100*d, 2*h),
+			mkChain(ca+"-renewed-1h-ago-ends+1d", ca, "k1", elliptic.P256(), -h, d))
 	}
 	alphabet = append(alphabet,
 		mkChain("keep-expired", "keep", "k1", elliptic.P256(), -d, -m),
@@ -428,6 +436,8 @@ func c36Case(r *mc.Run, ia addr.IA, tl *c36Timeline, ringName string, ring c36Ri
 		}
 	}
 	// ---- sign / verify now ----
+	var lagDB *sqlite.DB
+	var lagFetcher *c36Fetcher
 	body := []byte("c36 message")
 	ad := [][]byte{[]byte("associated"), []byte("data")}
 	for _, p := range probes {
@@ -479,16 +489,22 @@ func c36Case(r *mc.Run, ia addr.IA, tl *c36Timeline, ringName string, ring c36Ri
 		// update can be fetched from the server. It must come to the same verdict as the up-to-date verifier.
 		if len(tl.built) == 2 {
 			r.CaseBulk(1, 1)
-			lag, err := sqlite.New(fmt.Sprintf("c36-lag-%d", c36DBCtr.Add(1)), &db.SqliteConfig{InMemory: true, MaxOpenReadConns: 2})
-			if err != nil {
-				r.HarnessError("db: %v", err)
-				return
+			// one lagging trust DB per case: the first probed signature finds it one TRC behind
+			if lagDB == nil {
+				l, err := sqlite.New(fmt.Sprintf("c36-lag-%d", c36DBCtr.Add(1)), &db.SqliteConfig{InMemory: true, MaxOpenReadConns: 2})
+				if err != nil {
+					r.HarnessError("db: %v", err)
+					return
+				}
+				defer l.Close()
+				l.InsertTRC(ctx, tl.built[0])
+				for _, c := range chains {
+					l.InsertChain(ctx, c.chain)
+				}
+				lagDB = &l
+				lagFetcher = &c36Fetcher{trc: tl.built[1]}
 			}
-			lag.InsertTRC(ctx, tl.built[0])
-			for _, c := range chains {
-				lag.InsertChain(ctx, c.chain)
-			}
-			f := &c36Fetcher{trc: tl.built[1]}
+			lag, f := *lagDB, lagFetcher
 			lagVer := trust.Verifier{BoundIA: ia, BoundServer: c24Server,
 				Engine: trust.FetchingProvider{DB: lag, Recurser: trust.LocalOnlyRecurser{}, Fetcher: f}}
 			_, lerr := lagVer.Verify(ctx, msg, ad...)
@@ -499,7 +515,6 @@ func c36Case(r *mc.Run, ia addr.IA, tl *c36Timeline, ringName string, ring c36Ri
 			case lerr == nil:
 				r.Outcome("verify:ok-after-catching-up")
 			}
-			lag.Close()
 		}
 	}
 	// ---- expiry: advance the bubble clock just past each expiry ----
